@@ -108,6 +108,13 @@ def instances(r):
                    {"window": r.choice([0.5, 3.0, 0.25]), "trim": trim}, nts))
     out.append(two("segment.deviation", (s["ref_iv"], s["est_iv"]),
                    (s["est_iv"], s["ref_iv"]), {"trim": trim}, nts))
+    # boundary metrics take any valid interval arrays: different spans, gaps
+    ga, gb = gen.gapped_intervals(r), gen.gapped_intervals(r)
+    trim2 = r.random() < 0.6
+    ntg = ("gapped", ga, gb, trim2) if len(ga) != len(gb) else None
+    out.append(two("segment.detection", (ga, gb), (gb, ga),
+                   {"window": r.choice([0.5, 3.0, 0.25]), "trim": trim2}, ntg))
+    out.append(two("segment.deviation", (ga, gb), (gb, ga), {"trim": trim2}, ntg))
     for fn in ("segment.pairwise", "segment.rand_index", "segment.ari",
                "segment.mutual_information", "segment.vmeasure"):
         out.append(two(fn, a4, b4, {"frame_size": fs}, nts))
